@@ -258,6 +258,44 @@ def run_exotic_case(a):
         g.cleanup()
 
 
+def run_instantiation_case(a):
+    """the table names a bare N while the project also uses generic types whose base name is N (`Moment<Utc>` next to `Moment`). The
+    lookup is by exact name, so the instantiations are not named in the mapping: every line about them must read exactly as in the
+    unmapped run. (Differential: the zz_ names mark the positions of the instantiations; the plain N sits in declarations of its own.)"""
+    cli, base, target, mode = a
+    inst = ["%s<Utc>" % base, "Vec<%s<Local>>" % base, "Option<%s<Utc>>" % base, "HashMap<String, %s<Local>>" % base]
+    src = (HDR_ + rg.struct_src("ZzHolder", [("zz_inst", inst[0]), ("zz_list", inst[1]), ("zz_opt", inst[2]), ("zz_map", inst[3])]) +
+           rg.struct_src("PlainHolder", [("plain", base), ("plains", "Vec<%s>" % base)]) +
+           rg.command_src("zz_cmd", [("zz_param", inst[0]), ("zz_chan", "Channel<%s>" % inst[0]), ("zz_holder", "ZzHolder")], inst[1]) +
+           rg.command_src("plain_cmd", [("plain", base), ("holder", "PlainHolder")], "Option<%s>" % base) +
+           "pub fn zz_notify(app: AppHandle, zz_payload: %s) {\n    app.emit(\"zz-event\", zz_payload).unwrap();\n}\n\n" % inst[0] +
+           "pub fn plain_notify(app: AppHandle, p: %s) {\n    app.emit(\"plain-event\", p).unwrap();\n}\n\n" % base)
+    files = [("lib.rs", src)]
+    ga = proj.generate(cli, files, mode=mode, config={"type_mappings": {base: target}}, tag="c18ia")
+    gb = proj.generate(cli, files, mode=mode, tag="c18ib")
+    try:
+        if ga.run.timed_out or gb.run.timed_out:
+            return {"inconclusive": "watchdog"}
+        if ga.run.rc != 0 or gb.run.rc != 0:
+            return {"blocked": "rc=%s/%s" % (ga.run.rc, gb.run.rc)}
+        viol, compared = [], 0
+        for f in sorted(set(ga.output.texts) | set(gb.output.texts)):
+            la = [l.strip() for l in common.strip_ts(ga.output.texts.get(f, "")).splitlines() if "zz" in l.lower()]
+            lb = [l.strip() for l in common.strip_ts(gb.output.texts.get(f, "")).splitlines() if "zz" in l.lower()]
+            compared += len(lb)
+            if la != lb:
+                d = [(x, y) for x, y in zip(la, lb) if x != y][:1] or [(la[len(lb):][:1], lb[len(la):][:1])]
+                viol.append(("C18 instantiation-of-mapped-base-name-changed file=%s mode=%s" % (f, mode),
+                             "table {%s: %s}: a line about %s<..>, which the table does not name, differs from the unmapped run: mapped %r, unmapped %r" % (base, target, base, d[0][0], d[0][1])))
+        return {"viol": viol, "compared": compared, "files": files}
+    finally:
+        ga.cleanup()
+        gb.cleanup()
+
+
+HDR_ = rg.PRELUDE + "use tauri::{AppHandle, Emitter, ipc::Channel};\n\n"
+
+
 def run(tier):
     v = Verdict("C18", "exploration", tier)
     cli = common.build_cli()
@@ -338,6 +376,18 @@ def run(tier):
             v.blocked += 1
             continue
         v.count("exotic_target_projects")
+        for (sig, what) in r["viol"]:
+            v.violation(sig, what, proj.witness_of(r["files"], job[3], config={"type_mappings": {job[1]: job[2]}}))
+    ijobs = [(cli, base, target, mode) for base in ("Moment", "Uuid", "Decimal") for target in ("string", "number") for mode in ("none", "zod")]
+    for (job, r) in zip(ijobs, common.pmap(run_instantiation_case, ijobs)):
+        if "inconclusive" in r:
+            v.inconclusive.append("watchdog")
+            continue
+        v.case(("instantiation-of-mapped-base-name",) + job[1:], nontrivial=True)
+        if "blocked" in r:
+            v.blocked += 1
+            continue
+        v.count("instantiation_lines_compared_with_the_unmapped_run", r["compared"])
         for (sig, what) in r["viol"]:
             v.violation(sig, what, proj.witness_of(r["files"], job[3], config={"type_mappings": {job[1]: job[2]}}))
     v.extra["mapping_tables"] = len(tables)
